@@ -39,7 +39,7 @@ else
 fi
 git checkout -q -- . ; git clean -fdq
 # ---- run the checks against /repo with the change applied
-cd /verif; unset CARGO_TARGET_DIR
+cd "${EVALROOT:-/verif}"; unset CARGO_TARGET_DIR
 git -C /repo apply "$DST/patch.diff" || { echo "patch does not apply to /repo" | tee -a "$REPORT"; exit 2; }
 for c in $CHECKS; do
   OUT=$(./check "$c" quick 2>&1 | grep -E "^(VIOLATION|KNOWN|SUMMARY|MACHINERY|DETAIL)" | cut -c1-260)
